@@ -247,6 +247,9 @@ class Interp:
         if k in ("copy", "move"):
             return self.read_place(st, frame, op["place"])
         if k == "const":
+            if "tree_ref" in op:
+                # a reference to a constant / immutable static whose contents are known: a live reference to a cell holding them
+                return ("ref", st.alloc(self.const_tree(op["tree_ref"])))
             return self.const(op)
         return ("const", "other", k)
 
